@@ -605,3 +605,94 @@ def oracle_interrupt(h, st, b, prev_b):
                 bad.append('output %s, modified by the interrupted command %s, was not removed' % (o, o0))
         if e.depfile and e.depfile in b.files: bad.append('depfile %s of the interrupted command was not removed' % e.depfile)
     return bad or None
+
+# ------------------------------------------------------------------ C03: reference make semantics
+def gen_minimality_history(rnd, sid, feat=None):
+    """converged state -> exactly one change -> build everything; repeated.  Ground truth of the change is kept."""
+    f = dict(generator=0.15, restat=0.4, phony=0.25, alias=0.6, deps=0.35, orderonly=0.5, dyndep=0.0); f.update(feat or {})
+    g = engine.gen_graph(rnd, rnd.randrange(2, 9), f)
+    g.defaults = []
+    h = Hist(sid, g)
+    def full(change=None):
+        st = h.build(rnd, None, j=rnd.choice([1, 2, 4]), k=1, sched=rand_sched(rnd, 2 * len(g.edges) + 2))
+        st.change = change
+        r = Step('build', st.line, g=st.g, sources=st.sources, targets=st.targets, opts=st.opts, repeat=True); r.change = ('none',)
+        h.add(r)
+    full(('initial',))
+    for _ in range(rnd.randrange(1, 5)):
+        ne = [e for e in g.edges if not e.phony]
+        r = rnd.random()
+        if r < 0.3:
+            sname = rnd.choice(sorted(h.sources)); h.add(Step('touch', 'step touch %s' % hx(sname), path=sname)); ch = ('source', sname)
+        elif r < 0.6:
+            sname = rnd.choice(sorted(h.sources)); h.edit(sname, 'common' if rnd.random() < 0.1 else 'm.%d' % rnd.randrange(1000000)); ch = ('source', sname)
+        elif r < 0.75 and ne:
+            e = rnd.choice(ne); o = rnd.choice(e.outs); h.add(Step('rm', 'step rm %s' % hx(o), path=o)); ch = ('edge', e.idx)
+        elif r < 0.9 and ne:
+            e = rnd.choice(ne); e.ver += 1; h.rewrite_manifest(); ch = ('cmd', e.idx)
+        else:
+            es = [e for e in ne if e.rsp]
+            if not es: continue
+            e = rnd.choice(es); e.rspver += 1; h.rewrite_manifest(); ch = ('cmd', e.idx)
+        full(ch)
+    return h
+
+def expected_after_change(st, prev_st):
+    """the exact set of commands a build of everything must run after ONE change to a converged tree"""
+    g = st.g; prod = g.producer(); ch = st.change
+    old = prev_st.g.clean_contents(prev_st.sources); new = g.clean_contents(st.sources)
+    seeds = set()
+    if ch[0] == 'source':
+        for e in g.edges:
+            if not e.phony and ch[1] in e.exp + g.eff_imp(e) + e.hidden: seeds.add(e.idx)
+    elif ch[0] == 'edge': seeds.add(ch[1])
+    elif ch[0] == 'cmd':
+        e = [x for x in g.edges if x.idx == ch[1]][0]
+        if not e.generator: seeds.add(e.idx)
+    ran = {}; rew = {}
+    def through(i, depth=0):
+        """producers whose rewriting a reader of node i notices (phony names that are no files are looked through)"""
+        p = prod.get(i)
+        if p is None: return []
+        if p.phony and depth < 50: return [x for j in p.exp + p.imp for x in through(j, depth + 1)]
+        return [p]
+    order = []; seen = set()
+    def topo(e):
+        if e.idx in seen: return
+        seen.add(e.idx)
+        for i in g.all_ins(e):
+            if i in prod and prod[i] is not e: topo(prod[i])
+        order.append(e)
+    for e in g.edges: topo(e)
+    res = set()
+    # a phony alias of a source also hands on the source's time
+    def reads_changed_source(e, depth=0):
+        if ch[0] != 'source': return False
+        def thr(i, d=0):
+            if i == ch[1]: return True
+            p = prod.get(i)
+            return p is not None and p.phony and d < 50 and any(thr(j, d + 1) for j in p.exp + p.imp)
+        return any(thr(i) for i in e.exp + g.eff_imp(e) + e.hidden)
+    for e in order:
+        if e.phony: continue
+        r = e.idx in seeds or reads_changed_source(e) or any(rew.get(p.idx, False) for i in e.exp + g.eff_imp(e) + e.hidden for p in through(i) if p is not e)
+        ran[e.idx] = r
+        if r:
+            res.add(e.out0)
+            rew[e.idx] = (not g.eff_restat(e)) or any(old.get(o) != new.get(o) for o in g.eff_outs(e)) or (ch[0] == 'edge' and ch[1] == e.idx)
+    return res
+
+def oracle_c03(h, st, b, prev):
+    ch = getattr(st, 'change', None)
+    pst, pb = prev
+    if ch is None or ch[0] == 'initial' or pst is None or pb is None or pb.exit != 0 or b.exit != 0: return None
+    if always_dirty_phony(st.g): return None
+    if ch[0] == 'none':
+        return None   # convergence itself is C02's business
+    # the tree before the change was converged: the previous step is the verified repeat of a successful build
+    if not getattr(pst, 'repeat', False) or pb.started: return None
+    exp = expected_after_change(st, pst); got = set(b.started)
+    bad = []
+    if got - exp: bad.append('after the single change %s ninja ran %s which that change does not affect (affected: %s)' % (ch, sorted(got - exp), sorted(exp)))
+    if exp - got: bad.append('after the single change %s ninja did not run %s (ran %s)' % (ch, sorted(exp - got), sorted(got)))
+    return bad or None
